@@ -95,10 +95,19 @@ func (n *RSNode) Settle() error {
 	return nil
 }
 
+// Apply runs one write, checks the allocated revision and waits until it is published.
 func (n *RSNode) Apply(o *RSOp) error {
-	ctx := context.Background()
 	expect := n.Next
 	n.Next++
+	if err := n.DoAt(o, expect); err != nil {
+		return err
+	}
+	return n.Settle()
+}
+
+// DoAt runs one write that is expected to be dealt revision `expect`; it neither advances Next nor waits.
+func (n *RSNode) DoAt(o *RSOp, expect uint64) error {
+	ctx := context.Background()
 	switch o.Kind {
 	case "create":
 		resp, err := n.B.Create(ctx, &proto.CreateRequest{Key: o.Key, Value: o.Val})
@@ -131,7 +140,7 @@ func (n *RSNode) Apply(o *RSOp) error {
 	if o.OK && o.Rev != expect {
 		return fmt.Errorf("%s %q: header revision %d, expected allocated revision %d", o.Kind, o.Key, o.Rev, expect)
 	}
-	return n.Settle()
+	return nil
 }
 
 // ---------- generation ----------
